@@ -11,6 +11,7 @@ import (
 	"math/rand"
 	"net/http"
 	"net/http/httptest"
+	"reflect"
 	"sort"
 	"strings"
 
@@ -30,13 +31,15 @@ func init() {
 		Level: "exploration",
 		Rule: "requirement structures (global or per-operation; 1..4 alternatives of 1..3 of the schemes S1..S5 with scopes; the empty alternative at any position; some schemes without a registered authenticator; authorizer absent/accepting/denying plain/denying with own status; a quarter of the APIs hold 2..3 operations (or the API-wide list and operations) whose requirements are different groupings of ONE list of 2..4 (scheme, scopes) entries, e.g. A AND B next to A OR B; methods POST/PUT/PATCH/DELETE/GET, static paths and paths with a parameter) " +
 			"x per-scheme outcome vectors read by scripted authenticators from request headers (n=not applicable, a=accept with principal, g:<scopes>=accept only requirements whose scopes are all granted else reject 403, z=accept with nil principal, r=reject with 401/403/418; all 4^n vectors for n<=4 schemes, sampled beyond) " +
-			"x invalid/valid query parameter x body behind a counting consumer x (a quarter of the requests) something else wrong: unconsumed or unparsable Content-Type, unservable Accept, undecodable body; every structure is rebuilt several times (in-alternative order and the order in which the router visits the operations are map orders fixed at build) and driven through the full handler and through Context.Authorize, which on success is asked again on the returned request and once more after ResetAuth. " +
+			"x invalid/valid query parameter x body behind a counting consumer x (a quarter of the requests) something else wrong: unconsumed or unparsable Content-Type, unservable Accept, undecodable body; every structure is rebuilt several times (in-alternative order and the order in which the router visits the operations are map orders fixed at build) and driven through the full handler, through the same pipeline behind a middleware that already asked Context.Authorize, through Context.Authorize (which on success is asked again on the returned request and once more after ResetAuth, and after a refusal is asked again with the same request) and, on one build in six, through the exported RouteAuthenticators.Authenticate (the OR) and every RouteAuthenticator.Authenticate (one AND) on fresh matched routes; in a third of the structures the schemes yield principals that are not non-empty strings (*struct, map, the empty string, a typed-nil pointer), compared by identity. An anonymous admission must have consulted a scheme of every non-empty alternative whose schemes are all registered. " +
 			"Oracle over the observed authenticator call log. non-trivial = (structure hash, operation, outcome vector, observed call order) with >= 2 schemes in the operation's requirements or an empty alternative; distinct by that tuple",
 		Assumptions: []string{
 			"a scheme that would reject but was never consulted (an earlier scheme of the same alternative was not applicable, or an earlier alternative admitted) has rejected nothing",
 			"which of several satisfied alternatives naming schemes admits, and which of several rejecting schemes' errors is reported, is not stated and not judged; when such an alternative is satisfied the principal is non-nil (the anonymous alternative next to it does not hide the identified caller)",
 			"what an admitted request with an unconsumed/unparsable Content-Type, an unservable Accept or an undecodable body is answered (415, 406, 400, 422) is judged by C06/C07/C03, not here; a refusal never carries one of these codes",
 			"the scripted authorizer decides independently of the principal; the principal it is shown is judged",
+			"a principal is non-nil when the interface value the authenticator returned is not nil: the empty string and a typed-nil pointer are principals",
+			"of the exported Authenticate methods only admissions (applies, principal, no error), the error of a refusal and the alternative recorded for an admission are judged; the value of applies on a refusal and what the matched route records after a refusal are not",
 		},
 		MinNontrivial: 300,
 		Run:           run,
@@ -63,6 +66,29 @@ type Case struct {
 	Authorizer string    `json:"authorizer"` // none | accept | deny-plain | deny-403 | deny-409
 	Requests   []Request `json:"requests"`
 	Builds     int       `json:"builds"`
+	// PrincipalKinds: what kind of value a scheme's authenticator yields as principal (absent = the string
+	// "P:<scheme>"): ptr (*struct), map (map[string]string), empty (the string ""), typednil (a nil *struct)
+	PrincipalKinds map[string]string `json:"principalKinds,omitempty"`
+}
+
+// who is a principal of struct kind.
+type who struct{ Name string }
+
+// same: the two values are one principal. Pointers and maps are compared by identity (a map-typed
+// principal makes == panic), everything else by ==.
+func same(a, b interface{}) bool {
+	if a == nil || b == nil {
+		return a == nil && b == nil
+	}
+	va, vb := reflect.ValueOf(a), reflect.ValueOf(b)
+	if va.Type() != vb.Type() {
+		return false
+	}
+	switch va.Kind() {
+	case reflect.Map, reflect.Ptr:
+		return va.Pointer() == vb.Pointer()
+	}
+	return a == b
 }
 
 type call struct {
@@ -79,9 +105,31 @@ type sut struct {
 	authzCalls []interface{}
 	handlerRan int
 	consumed   int
+	// princ: the principal each scheme yields in this build (never nil as an interface value)
+	princ map[string]interface{}
 }
 
 func principalOf(s string) string { return "P:" + s }
+
+// principalFor builds the principal of a scheme.
+func principalFor(kind, scheme string) interface{} {
+	switch kind {
+	case "ptr":
+		return &who{Name: scheme}
+	case "map":
+		return map[string]string{"name": scheme}
+	case "empty":
+		return "" // the zero value of its type is still a principal
+	case "typednil":
+		return (*who)(nil) // an interface value holding a nil pointer is not nil
+	}
+	return principalOf(scheme)
+}
+
+// isPrincipalOf: p is the principal the scheme yields.
+func (s *sut) isPrincipalOf(scheme string, p interface{}) bool {
+	return same(s.princ[scheme], p)
+}
 
 // outcomeFor resolves a scripted outcome against the scopes a requirement asks of the scheme:
 // "g:read,write" accepts iff every required scope is granted, and rejects with 403 otherwise.
@@ -106,7 +154,10 @@ func build(c *Case) (*sut, error) {
 	if err != nil {
 		return nil, err
 	}
-	s := &sut{c: c}
+	s := &sut{c: c, princ: map[string]interface{}{}}
+	for _, name := range schemes {
+		s.princ[name] = principalFor(c.PrincipalKinds[name], name)
+	}
 	api := untyped.NewAPI(doc)
 	api.RegisterConsumer("application/json", runtime.ConsumerFunc(func(r io.Reader, v interface{}) error {
 		s.consumed++
@@ -122,7 +173,7 @@ func build(c *Case) (*sut, error) {
 			}
 			switch out {
 			case "a":
-				return true, principalOf(name), nil
+				return true, s.princ[name], nil
 			case "z":
 				return true, nil, nil
 			case "r401":
@@ -132,7 +183,7 @@ func build(c *Case) (*sut, error) {
 			case "r418":
 				return true, nil, oerrors.New(418, "rejected-by-%s", name)
 			case "rp403": // a rejection that still names the identified user (e.g. insufficient scope)
-				return true, principalOf(name), oerrors.New(403, "rejected-by-%s", name)
+				return true, s.princ[name], oerrors.New(403, "rejected-by-%s", name)
 			default:
 				return false, nil, nil
 			}
@@ -309,6 +360,10 @@ func runCase(m *mon.M, c *Case) {
 		R []string
 		A string
 	}{c.Desc, c.Registered, c.Authorizer})
+	if len(c.PrincipalKinds) > 0 {
+		pk, _ := json.Marshal(c.PrincipalKinds)
+		b = append(b, pk...)
+	}
 	sh := fmt.Sprintf("%x", mon.Hash64(string(b)))
 	reg := map[string]bool{}
 	for _, r := range c.Registered {
@@ -322,7 +377,7 @@ func runCase(m *mon.M, c *Case) {
 		}
 		for ri := range c.Requests {
 			rq := &c.Requests[ri]
-			one := &Case{Desc: c.Desc, Registered: c.Registered, Authorizer: c.Authorizer, Requests: []Request{*rq}, Builds: 6}
+			one := &Case{Desc: c.Desc, Registered: c.Registered, Authorizer: c.Authorizer, Requests: []Request{*rq}, Builds: 6, PrincipalKinds: c.PrincipalKinds}
 			op := &c.Desc.Ops[rq.Op]
 			alts := alternatives(&c.Desc, op)
 			ref := judgeRef(c, alts, rq.Outcomes)
@@ -384,12 +439,17 @@ func runCase(m *mon.M, c *Case) {
 				rq2  *http.Request
 				aerr error
 			)
+			var (
+				route0 *middleware.MatchedRoute
+				rr0    *http.Request
+			)
 			pv, st = mon.Catch(func() {
 				route, rr, ok := s.ctx.RouteInfo(req2)
 				if !ok {
 					aerr = fmt.Errorf("route not found")
 					return
 				}
+				route0, rr0 = route, rr
 				usr, rq2, aerr = s.ctx.Authorize(rr, route)
 			})
 			m.Eval(1)
@@ -397,7 +457,31 @@ func runCase(m *mon.M, c *Case) {
 				m.Violate("authorize-panic/"+feat, fmt.Sprintf("panic: %v\n%s", pv, st), one)
 				continue
 			}
-			if !judgeAuthorize(m, "authorize", c, s, rq, alts, ref, usr, rq2, aerr, feat, one) || aerr != nil || rq2 == nil {
+			firstOK := judgeAuthorize(m, "authorize", c, s, rq, alts, ref, usr, rq2, aerr, feat, one)
+			if firstOK && aerr != nil && route0 != nil && len(alts) > 0 {
+				// ---- entry point 2, after a refusal: the same asker asks again with the request it holds ----
+				// A refusal is no warrant: the second answer is held to the statement like the first, over the
+				// authenticators it consulted itself.
+				s.calls, s.authzCalls, s.handlerRan, s.consumed = nil, nil, 0, 0
+				var (
+					usrR  interface{}
+					rqR   *http.Request
+					aerrR error
+				)
+				pv, st = mon.Catch(func() { usrR, rqR, aerrR = s.ctx.Authorize(rr0, route0) })
+				m.Eval(1)
+				if pv != nil {
+					m.Violate("authorize-after-refusal-panic/"+feat, fmt.Sprintf("panic: %v\n%s", pv, st), one)
+					continue
+				}
+				if judgeAuthorize(m, "authorize-after-refusal", c, s, rq, alts, ref, usrR, rqR, aerrR, feat, one) {
+					m.Class("authorize-after-refusal")
+				}
+			}
+			if bi%6 == 0 { // one build in six: the budget of the other entry points stays what it was
+				directCalls(m, c, s, rq, alts, ref, feat, one, reg)
+			}
+			if !firstOK || aerr != nil || rq2 == nil {
 				continue
 			}
 			// ---- entry point 2, continued: later askers on the request value Authorize returned ----
@@ -456,13 +540,68 @@ func features(c *Case, alts []gen.SecReq, out map[string]string) string {
 			}
 		}
 	}
+	// the kinds of principal the operation's schemes yield (input only)
+	kinds := map[string]bool{}
+	for _, a := range alts {
+		for sch := range a {
+			if k := c.PrincipalKinds[sch]; k != "" && reg[sch] {
+				kinds[k] = true
+			}
+		}
+	}
+	suffix := ""
+	if len(kinds) > 0 {
+		var ks []string
+		for k := range kinds {
+			ks = append(ks, k)
+		}
+		sort.Strings(ks)
+		suffix = "+principal-" + strings.Join(ks, "-")
+	}
 	switch {
 	case unreg:
-		return "alternative-with-unregistered-scheme"
+		return "alternative-with-unregistered-scheme" + suffix
 	case nilp:
-		return "nil-principal-inside-AND"
+		return "nil-principal-inside-AND" + suffix
 	}
-	return "plain"
+	return "plain" + suffix
+}
+
+// unlooked: on an anonymous admission, the non-empty alternatives all of whose schemes are registered and of
+// which no scheme was consulted. Nothing can be said to have rejected nothing without having been asked: an
+// alternative that could apply is looked at before the empty alternative admits.
+func unlooked(s *sut, alts []gen.SecReq, reg map[string]bool) []gen.SecReq {
+	var miss []gen.SecReq
+	need := 0
+	for _, a := range alts {
+		if len(a) == 0 {
+			continue
+		}
+		full := true
+		for sch := range a {
+			if !reg[sch] {
+				full = false
+			}
+		}
+		if !full {
+			continue
+		}
+		need++
+		looked := false
+		for _, cl := range s.calls {
+			if sc, in := a[cl.scheme]; in && strings.Join(sortedCopy(sc), ",") == strings.Join(sortedCopy(cl.scopes), ",") {
+				looked = true
+			}
+		}
+		if !looked {
+			miss = append(miss, a)
+		}
+	}
+	if len(miss) == 0 && len(s.calls) < need {
+		// one consultation cannot stand for two alternatives
+		miss = append(miss, gen.SecReq{})
+	}
+	return miss
 }
 
 func callOrder(cs []call) string {
@@ -556,6 +695,12 @@ func judgeHandler(m *mon.M, c *Case, s *sut, rq *Request, alts []gen.SecReq, ref
 			m.Violate("admitted-without-satisfied-alternative/"+feat, desc(), one)
 			return
 		}
+		if !admittedBySatisfied {
+			if miss := unlooked(s, alts, reg); len(miss) > 0 {
+				m.Violate("anonymous-admission-without-asking-an-alternative/"+feat, fmt.Sprintf("not consulted: %v ; %s", miss, desc()), one)
+				return
+			}
+		}
 		if c.Authorizer != "none" {
 			if len(s.authzCalls) != 1 {
 				m.Violate("authorizer-not-consulted-once/"+feat, desc(), one)
@@ -565,7 +710,7 @@ func judgeHandler(m *mon.M, c *Case, s *sut, rq *Request, alts []gen.SecReq, ref
 				m.Violate("authorizer-shown-nil-principal-although-alternative-satisfied/"+feat, desc(), one)
 				return
 			}
-			if !principalWarranted(s.authzCalls[0], ref, rq.Outcomes) {
+			if !principalWarranted(s, s.authzCalls[0], ref, rq.Outcomes) {
 				m.Violate("authorizer-shown-unwarranted-principal/"+feat, desc(), one)
 				return
 			}
@@ -624,7 +769,7 @@ func judgeHandler(m *mon.M, c *Case, s *sut, rq *Request, alts []gen.SecReq, ref
 			m.Violate("authorizer-shown-nil-principal-although-alternative-satisfied/"+feat, desc(), one)
 			return
 		}
-		if len(s.authzCalls) != 1 || !principalWarranted(s.authzCalls[0], ref, rq.Outcomes) {
+		if len(s.authzCalls) != 1 || !principalWarranted(s, s.authzCalls[0], ref, rq.Outcomes) {
 			m.Violate("authorizer-shown-unwarranted-principal/"+feat, desc(), one)
 			return
 		}
@@ -652,17 +797,13 @@ func judgeHandler(m *mon.M, c *Case, s *sut, rq *Request, alts []gen.SecReq, ref
 
 // principalWarranted: p is the principal of a scheme of some satisfied alternative, or nil when only
 // the anonymous alternative can have admitted.
-func principalWarranted(p interface{}, ref verdict, out map[string]string) bool {
+func principalWarranted(s *sut, p interface{}, ref verdict, out map[string]string) bool {
 	if p == nil {
 		return ref.hasAnon
 	}
-	ps, ok := p.(string)
-	if !ok {
-		return false
-	}
 	for _, a := range ref.satisfied {
 		for sch := range a {
-			if principalOf(sch) == ps {
+			if s.isPrincipalOf(sch, p) {
 				return true
 			}
 		}
@@ -709,15 +850,25 @@ func judgeAuthorize(m *mon.M, kind string, c *Case, s *sut, rq *Request, alts []
 			m.Violate(kind+"-nil-principal-although-alternative-satisfied/"+feat, desc(), one)
 			return false
 		}
-		if !principalWarranted(usr, ref, rq.Outcomes) {
+		if !principalWarranted(s, usr, ref, rq.Outcomes) {
 			m.Violate(kind+"-unwarranted-principal/"+feat, desc(), one)
 			return false
+		}
+		if usr == nil {
+			reg := map[string]bool{}
+			for _, r := range c.Registered {
+				reg[r] = true
+			}
+			if miss := unlooked(s, alts, reg); len(miss) > 0 {
+				m.Violate(kind+"-anonymous-admission-without-asking-an-alternative/"+feat, fmt.Sprintf("not consulted: %v ; %s", miss, desc()), one)
+				return false
+			}
 		}
 		if rq2 == nil {
 			m.Violate(kind+"-nil-request-on-success/"+feat, desc(), one)
 			return false
 		}
-		if cp := middleware.SecurityPrincipalFrom(rq2); cp != usr {
+		if cp := middleware.SecurityPrincipalFrom(rq2); !same(cp, usr) {
 			m.Violate(kind+"-context-principal-differs/"+feat, desc(), one)
 			return false
 		}
@@ -729,7 +880,7 @@ func judgeAuthorize(m *mon.M, kind string, c *Case, s *sut, rq *Request, alts []
 		} else {
 			for _, a := range ref.satisfied {
 				for sch := range a {
-					if principalOf(sch) == usr && strings.Join(unionScopes(a), ",") == got {
+					if s.isPrincipalOf(sch, usr) && strings.Join(unionScopes(a), ",") == got {
 						ok = true
 					}
 				}
@@ -780,6 +931,171 @@ func judgeAuthorize(m *mon.M, kind string, c *Case, s *sut, rq *Request, alts []
 	}
 	m.Class(kind + "-refused")
 	return true
+}
+
+// directCalls feeds the request to the exported evaluation itself: RouteAuthenticators.Authenticate (the OR) on a
+// fresh matched route, then every RouteAuthenticator.Authenticate (one AND) on a fresh matched route each.
+// An admission needs the same warrant as anywhere else, and what the matched route records as the admitting
+// alternative is the one whose scopes the handler will read.
+func directCalls(m *mon.M, c *Case, s *sut, rq *Request, alts []gen.SecReq, ref verdict, feat string, one *Case, reg map[string]bool) {
+	if len(alts) == 0 {
+		return
+	}
+	fresh := func() (*middleware.MatchedRoute, *http.Request) {
+		route, rr, ok := s.ctx.RouteInfo(s.request(rq))
+		if !ok {
+			return nil, nil
+		}
+		return route, rr
+	}
+	desc := func(what string, applies bool, usr interface{}, err error) string {
+		return fmt.Sprintf("%s: op=%s alternatives=%v registered=%v outcomes=%v calls=%s -> applies=%v principal=%v err=%v",
+			what, c.Desc.Ops[rq.Op].ID, alts, c.Registered, rq.Outcomes, callOrder(s.calls), applies, usr, err)
+	}
+	// ---- the OR ----
+	route, rr := fresh()
+	if route == nil {
+		return
+	}
+	s.calls, s.authzCalls, s.handlerRan, s.consumed = nil, nil, 0, 0
+	var (
+		applies bool
+		usr     interface{}
+		err     error
+	)
+	pv, st := mon.Catch(func() { applies, usr, err = route.Authenticators.Authenticate(rr, route) })
+	m.Eval(1)
+	if pv != nil {
+		m.Violate("direct-or-panic/"+feat, fmt.Sprintf("panic: %v\n%s", pv, st), one)
+		return
+	}
+	rejecters := consultedRejecters(s, rq.Outcomes)
+	warranted := len(ref.satisfied) > 0 || (ref.hasAnon && len(rejecters) == 0)
+	d := desc("RouteAuthenticators.Authenticate", applies, usr, err)
+	switch {
+	case applies && err == nil && usr != nil:
+		// identified: by a satisfied alternative, which the matched route records
+		okScopes := false
+		if route.Authenticator != nil {
+			got := strings.Join(sortedCopy(route.Authenticator.AllScopes()), ",")
+			for _, a := range ref.satisfied {
+				for sch := range a {
+					if s.isPrincipalOf(sch, usr) && strings.Join(unionScopes(a), ",") == got {
+						okScopes = true
+					}
+				}
+			}
+		}
+		switch {
+		case !principalWarranted(s, usr, ref, rq.Outcomes):
+			m.Violate("direct-or-unwarranted-principal/"+feat, d, one)
+		case route.Authenticator == nil:
+			m.Violate("direct-or-admitting-alternative-not-recorded/"+feat, d, one)
+		case !okScopes:
+			m.Violate("direct-or-recorded-alternative-not-the-admitting-one/"+feat, d+fmt.Sprintf(" recorded scopes=%v", route.Authenticator.AllScopes()), one)
+		default:
+			m.Class("direct-or-identified")
+		}
+	case applies && err == nil:
+		// admitted without a principal: only the empty alternative does that
+		switch {
+		case len(ref.satisfied) > 0:
+			m.Violate("direct-or-nil-principal-although-alternative-satisfied/"+feat, d, one)
+		case !warranted:
+			m.Violate("direct-or-admitted-without-satisfied-alternative/"+feat, d, one)
+		case len(unlooked(s, alts, reg)) > 0:
+			m.Violate("direct-or-anonymous-admission-without-asking-an-alternative/"+feat, d, one)
+		case route.Authenticator == nil || !route.Authenticator.AllowsAnonymous():
+			m.Violate("direct-or-anonymous-admission-not-recorded/"+feat, d, one)
+		default:
+			m.Class("direct-or-anonymous")
+		}
+	default:
+		// refused
+		code := 0
+		var oe oerrors.Error
+		if err != nil && errors.As(err, &oe) {
+			code = int(oe.Code())
+		}
+		okErr := false
+		for sch, rc := range rejecters {
+			if err != nil && code == rc && strings.Contains(err.Error(), "rejected-by-"+sch) {
+				okErr = true
+			}
+		}
+		switch {
+		// (what the matched route records after a refusal is not stated: not judged; Context.Authorize clears it)
+		case warranted:
+			m.Violate("direct-or-refused-although-warranted/"+feat, d, one)
+		case usr != nil:
+			m.Violate("direct-or-principal-with-a-refusal/"+feat, d, one)
+		case len(rejecters) > 0 && !okErr:
+			m.Violate("direct-or-error-not-a-rejecters/"+feat, d, one)
+		case len(rejecters) == 0 && err != nil:
+			m.Violate("direct-or-error-from-nowhere/"+feat, d, one)
+		default:
+			m.Class("direct-or-refused")
+		}
+	}
+
+	// ---- each AND ----
+	n := len(route.Authenticators)
+	if n != len(alts) {
+		return // the structure was not carried over one to one: not judged here
+	}
+	for i := 0; i < n; i++ {
+		route, rr := fresh()
+		if route == nil || len(route.Authenticators) != n {
+			return
+		}
+		ra := route.Authenticators[i]
+		alt := alts[i]
+		s.calls, s.authzCalls, s.handlerRan, s.consumed = nil, nil, 0, 0
+		pv, st := mon.Catch(func() { applies, usr, err = ra.Authenticate(rr, route) })
+		m.Eval(1)
+		if pv != nil {
+			m.Violate("direct-and-panic/"+feat, fmt.Sprintf("panic: %v\n%s", pv, st), one)
+			return
+		}
+		d := desc(fmt.Sprintf("RouteAuthenticator[%d].Authenticate %v", i, alt), applies, usr, err)
+		if len(alt) == 0 {
+			if !applies || usr != nil || err != nil || len(s.calls) > 0 {
+				m.Violate("direct-and-empty-alternative/"+feat, d, one)
+			}
+			continue
+		}
+		satisfied := true
+		for sch, scopes := range alt {
+			if !reg[sch] || outcomeFor(rq.Outcomes[sch], scopes) != "a" {
+				satisfied = false
+			}
+		}
+		for _, cl := range s.calls {
+			if sc, in := alt[cl.scheme]; !in || strings.Join(sortedCopy(sc), ",") != strings.Join(sortedCopy(cl.scopes), ",") {
+				m.Violate("direct-and-consulted-foreign-scheme-or-scopes/"+feat, d, one)
+				return
+			}
+		}
+		mine := false
+		for sch := range alt {
+			if s.isPrincipalOf(sch, usr) {
+				mine = true
+			}
+		}
+		admitted := applies && err == nil && usr != nil
+		switch {
+		case admitted && !satisfied:
+			m.Violate("direct-and-admitted-unsatisfied-alternative/"+feat, d, one)
+		case admitted && !mine:
+			m.Violate("direct-and-foreign-principal/"+feat, d, one)
+		case !admitted && satisfied:
+			m.Violate("direct-and-refused-satisfied-alternative/"+feat, d, one)
+		case !admitted && usr != nil && err == nil:
+			m.Violate("direct-and-principal-without-admission/"+feat, d, one)
+		default:
+			m.Class("direct-and")
+		}
+	}
 }
 
 // ---------- generation ----------
@@ -987,6 +1303,14 @@ func genCase(r *rand.Rand, builds int, maxReq int) *Case {
 		}
 	}
 	c.Authorizer = []string{"none", "none", "accept", "deny-plain", "deny-403", "deny-409"}[r.Intn(6)]
+	if r.Intn(3) == 0 { // principals that are not non-empty strings
+		c.PrincipalKinds = map[string]string{}
+		for _, s := range schemes {
+			if k := []string{"", "ptr", "map", "empty", "typednil"}[r.Intn(5)]; k != "" {
+				c.PrincipalKinds[s] = k
+			}
+		}
+	}
 	for oi := range d.Ops {
 		alts := alternatives(&d, &d.Ops[oi])
 		used := map[string]bool{}
